@@ -6,6 +6,8 @@ package c01
 
 import (
 	"fmt"
+	"io"
+	"log"
 	"math"
 	"math/rand"
 	"strings"
@@ -34,6 +36,7 @@ func Spec() *run.Spec {
 			"slices handed to polyform (attribute data, index lists, material lists) are allocated per call and never touched again by the harness; mutation through caller-kept slices is documented sharing and out of reach",
 			"some live meshes carry NaN (several payloads), ±Inf and -0 components; pure queries (BoundingBox per attribute, OctTree*, VertexNeighborTable, Tri accessors, iterators, scans, writers) are history steps like any other",
 			"Modify*Parallel* are driven with pool sizes 8/16/NumCPU on receivers of 0–16 elements and a callback that takes a seeded 100–500 µs; their results are fingerprinted on return and re-read 2 ms later and at every later step",
+			"sources (Cone, Cylinder, Circle, Cube welded/quads, UnitCube, Quad, UVSphere welded/unwelded, Hemisphere, extrude.Polygon/Circle/Line/Shape/ClosedShape, repeat.Mesh over repeat.Circle/Line/FibonacciSphere/CirclePoints, BowyerWatson) are built repeatedly within a history with identical, and with equal base but different secondary, parameters while earlier instances and their SetMaterial/ToPointCloud/SetIndices relatives are live",
 			"operations are only generated with their precondition met; a panic or error is not a C01 verdict (the sweep still runs after it)",
 			"results with more than 400 vertices or 3000 indices are swept once but not kept in the pool (bounds of the exploration); phase large-bases: pool ≤ 5, one base of 32769 … 131073 vertices, 8–16 steps, bounds 420000 vertices / 1300000 indices",
 		},
@@ -69,15 +72,21 @@ var (
 	appendOps, deriveOps, observeOps, sourceOps []int
 	queriesOp, poisonOp                         int
 	modifyOps                                   []int
+	repeatableSources, relativeOps              []int
 )
 
 func init() {
+	log.SetOutput(io.Discard) // triangulation logs to the standard logger
 	for i, o := range table {
 		switch o.Kind {
 		case ops.Derive:
 			deriveOps = append(deriveOps, i)
 			if o.Group == "special" {
 				poisonOp = i
+			}
+			switch o.Name {
+			case "Mesh.SetMaterial", "Mesh.SetMaterials", "Mesh.ToPointCloud", "Mesh.SetIndices", "Mesh.SetFloat1Attribute", "Mesh.Scan*":
+				relativeOps = append(relativeOps, i)
 			}
 			if strings.HasPrefix(o.Name, "Mesh.ModifyFloat") {
 				modifyOps = append(modifyOps, i)
@@ -92,6 +101,9 @@ func init() {
 			}
 		case ops.Source:
 			sourceOps = append(sourceOps, i)
+			if o.Name != "gen.Mesh" {
+				repeatableSources = append(repeatableSources, i)
+			}
 		}
 	}
 }
@@ -104,7 +116,9 @@ type live struct {
 	attrN  int // -1 when attribute lengths disagree (AttributeLength ambiguous)
 	origin string
 	parent int // id of the receiver it was derived from, -1 for sources
-	viaApp bool
+	// baseKey: base parameters of the source this mesh is an instance of, or a relative of
+	baseKey string
+	viaApp  bool
 }
 
 func primsOf(m modeling.Mesh) (n int) {
@@ -156,11 +170,14 @@ type hist struct {
 	// evidence
 	spareSiblingPairs int
 	// bounds of the exploration
-	large   bool
-	fanOut  bool // next apply draws the fan-out shape
-	poolCap int
-	maxV    int
-	maxI    int
+	large  bool
+	fanOut bool // next apply draws the fan-out shape
+	// sources: base seed of the next source call, and the base seeds this history used per source op
+	sourceBase int64
+	baseSeeds  map[int][]int64
+	poolCap    int
+	maxV       int
+	maxI       int
 }
 
 func (h *hist) add(m modeling.Mesh, origin string, parent int, viaApp bool, protect map[int]bool) *live {
@@ -314,7 +331,7 @@ func (h *hist) sweep(opName, desc string, base *live, extra []*live) {
 func (h *hist) apply(opIdx int, base *live, seed int64, protect map[int]bool) (made bool, results []*live) {
 	op := table[opIdx]
 	var operands []*live
-	env := &ops.Env{Valid: true, Large: h.large, FanOut: h.fanOut, Other: func(r *rand.Rand, like modeling.Mesh) modeling.Mesh {
+	env := &ops.Env{Valid: true, Large: h.large, FanOut: h.fanOut, SourceBase: h.sourceBase, Other: func(r *rand.Rand, like modeling.Mesh) modeling.Mesh {
 		// half of the time a live mesh of the same topology, else a fresh small one (it joins the sweep as operand)
 		if r.Intn(2) == 0 {
 			var same []*live
@@ -341,6 +358,25 @@ func (h *hist) apply(opIdx int, base *live, seed int64, protect map[int]bool) (m
 		return false, nil
 	}
 	sp, _ := spare(base.m)
+	if op.Kind == ops.Source && call.BaseKey != "" {
+		inst, rel := false, false
+		for _, l := range h.pool {
+			if l.baseKey == call.BaseKey {
+				if l.parent == -1 {
+					inst = true
+				} else {
+					rel = true
+				}
+			}
+		}
+		if inst {
+			h.res.Count("source_rebuilt_with_same_base_parameters_while_earlier_instance_live", 1)
+			h.res.SetAdd("sources_rebuilt_while_instance_live", op.Name)
+		}
+		if rel {
+			h.res.Count("source_rebuilt_with_same_base_parameters_while_relative_of_earlier_instance_live", 1)
+		}
+	}
 	if op.Kind == ops.Observe && hasNonFinite(base.snap) {
 		h.res.Count("query_steps_on_meshes_with_non_finite_values", 1)
 	}
@@ -392,6 +428,11 @@ func (h *hist) apply(opIdx int, base *live, seed int64, protect map[int]bool) (m
 			par = -1
 		}
 		l := h.add(o, fmt.Sprintf("%s [result %d]", entry, k), par, strings.HasPrefix(op.Name, "Mesh.Append") || op.Name == "repeat.Mesh", protect)
+		if op.Kind == ops.Source {
+			l.baseKey = call.BaseKey
+		} else {
+			l.baseKey = base.baseKey
+		}
 		protect[l.id] = true
 		fresh = append(fresh, l)
 		entry += fmt.Sprintf(" => #%d", l.id)
@@ -567,6 +608,21 @@ func history(c *run.Ctx) run.Result {
 				h.apply(oi, tiny, r.Int63(), map[int]bool{tiny.id: true})
 			}
 			h.fanOut = false
+		case x < 0.53 && !h.large: // source-repeat step: one source built again and again with equal / partially equal parameters
+			op := repeatableSources[r.Intn(len(repeatableSources))]
+			h.sourceBase = h.drawBaseSeed(op)
+			protect := map[int]bool{}
+			s1 := r.Int63()
+			_, f1 := h.apply(op, h.pool[0], s1, protect) // first instance
+			if len(f1) > 0 && len(relativeOps) > 0 {     // a relative of it (SetMaterial / ToPointCloud / SetIndices / …)
+				h.apply(relativeOps[r.Intn(len(relativeOps))], f1[0], r.Int63(), protect)
+			}
+			h.apply(op, h.pool[0], r.Int63(), protect) // same base parameters, other secondary parameters
+			if r.Intn(2) == 0 {
+				h.apply(op, h.pool[0], s1, protect) // the identical call again
+			}
+			h.sourceBase = 0
+			res.Count("source_repeat_steps", 1)
 		case x < 0.75: // plain derivation
 			for try, ok := 0, false; try < 8 && !ok; try++ {
 				op := h.drawDerive(false)
@@ -584,7 +640,9 @@ func history(c *run.Ctx) run.Result {
 			}
 		default: // a new source (the welded cube hands out a package-level index slice)
 			op := sourceOps[r.Intn(len(sourceOps))]
+			h.sourceBase = h.drawBaseSeed(op)
 			h.apply(op, h.pool[0], r.Int63(), map[int]bool{})
+			h.sourceBase = 0
 		}
 	}
 	res.Count("histories", 1)
@@ -650,4 +708,18 @@ func hasNonFinite(s *ref.Snapshot) bool {
 		}
 	}
 	return false
+}
+
+// drawBaseSeed: half of the time a base seed this history already used for the source (so the
+// same base parameters come back while earlier instances may still be live), else a new one.
+func (h *hist) drawBaseSeed(op int) int64 {
+	if h.baseSeeds == nil {
+		h.baseSeeds = map[int][]int64{}
+	}
+	if old := h.baseSeeds[op]; len(old) > 0 && h.r.Intn(2) == 0 {
+		return old[h.r.Intn(len(old))]
+	}
+	s := h.r.Int63() | 1
+	h.baseSeeds[op] = append(h.baseSeeds[op], s)
+	return s
 }
